@@ -507,6 +507,9 @@ def families(lang, tier, tokens, max_pairs=None):
         yield 'arbitrary', t, [f'w{i}' for i in range(T.n_leaves(t))]
     for t in T.inventory_trees(lang, tier == 'thorough'):
         yield 'arbitrary', t, ['w0', 'w1', 'w2']
+    if lang == 'en':
+        for t in T.nb_trees():
+            yield 'arbitrary', t, [f'w{i}' for i in range(T.n_leaves(t))]
     for name, fam in (('licensed', lic), ('licensed', cover), ('arbitrary', arb)):
         for idx, t in enumerate(fam):
             n = T.n_leaves(t)
